@@ -4,7 +4,7 @@ from lib import TieCheck
 class C01(TieCheck):
     pid = "C01"
     area = "Route"
-    props = ["Props_C01.v", "Props_C01_spec.v", "Props_C01_lazy.v", "Props_C01_static.v", "Props_C01_e2e.v", "Props_C01_single.v"]
+    props = ["Props_C01.v", "Props_C01_spec.v", "Props_C01_lazy.v", "Props_C01_static.v", "Props_C01_e2e.v", "Props_C01_single.v", "Props_C09_e2e.v"]
     coq_targets = ["Corr.vo"]
     harness = "c01"
     extra_trust = ["model M1: coq/Route/Lookup.v transliterates lookupByPath / lookupByDomain / roots.lookup (node.go:85-600) over pure trees (coq/Route/Node.v); specification S: coq/Route/Spec.v (matcher over the list of registered patterns)",
